@@ -104,6 +104,8 @@ def print_stmt(n):
         return "".join("%s={{ %s is defined }}:{{ %s }};" % (x, x, x) for x in n[1])
     if k == "set":
         return "{%% set %s = %s %%}" % (n[1], print_expr(n[2]))
+    if k == "setmulti":
+        return "{%% set %s = %s %%}" % (", ".join(n[1]), ", ".join(print_expr(e) for e in n[2]))
     if k == "setblock":
         return "{%% set %s %%}%s{%% endset %%}" % (n[1], print_body(n[2]))
     if k == "if":
@@ -603,7 +605,7 @@ class _MGen:
         n = d(st.integers(1, self.size + 2))
         for _ in range(n):
             choices = [(4, "set"), (4, "macro"), (2, "priv"), (2, "privmacro"), (2, "ifset"), (2, "forset"), (1, "withset"),
-                       (1, "setblock"), (1, "text")]
+                       (1, "setblock"), (1, "text"), (3, "multi")]
             if idx > 0:
                 choices += [(2, "import"), (2, "from"), (1, "include")]
             k = _weighted(d, choices)
@@ -616,6 +618,14 @@ class _MGen:
                 body = [["text", "<%s.%s " % (me, nm)], ["out", ["n", "a"]], ["text", "|"], self.probe(), ["text", ">"]]
                 items.append(["macro", nm, ["a"], body])
                 macros.append(nm)
+            elif k == "multi":
+                # tuple unpacking at top level: mostly public and private targets mixed
+                names = d(st.sampled_from([["p0", "_p"], ["_p", "p1"], ["p0", "_p", "p1"], ["_p", "_q"], ["p0", "p1"], ["q", "_p"]]))
+                node = ["setmulti", names, [self.value(me + "." + nm) for nm in names]]
+                if d(st.integers(0, 4)) == 0:
+                    node = ["if", ["c", True], [node], []]
+                items.append(node)
+                pubs.extend(nm for nm in names if not nm.startswith("_"))
             elif k == "priv":
                 items.append(["set", "_p", self.value(me + "._p")])
             elif k == "privmacro":
@@ -729,7 +739,7 @@ class _MGen:
                 elif u == "attr":
                     out.append(["out", ["attr", alias, d(st.sampled_from(["p0", "p1", "q"]))]])
                 elif u == "priv":
-                    out.append(["out", ["defd", ["attr", alias, d(st.sampled_from(["_p", "_m"]))]]])
+                    out.append(["out", ["defd", ["attr", alias, d(st.sampled_from(["_p", "_p", "_m", "_q"]))]]])
                 elif u == "fm":
                     out.append(["out", ["defd", ["attr", alias, d(st.sampled_from(["fm", "K", "w", "i"]))]]])
                 elif u == "str":
